@@ -824,7 +824,7 @@ func (dht *IpfsDHT) dialPeer(ctx context.Context, p peer.ID) error
   ghostvar $conn bool = false
   ghostvar $cerr error = nil
   ghostvar $dialed bool = false
-  modifies *
+  modifies nothing
   ensures [success-means-connected-or-dialed] imp(result == nil, $conn || ($dialed && $cerr == nil))
   ensures [dial-error-is-reported] imp($dialed && $cerr != nil, result != nil)
   ghost at before call(Connectedness): assert($arg0 == p)
